@@ -1051,6 +1051,30 @@ pub fn check_c17(h: &Hist) -> POut {
         if m.cost_added.wrapping_sub(m.cost_evicted) != *used as u64 {
             out.violations.push(viol("C17", "R-cost-conservation", cp.seq, "cost_added - cost_evicted differs from the charged total", format!("added={} evicted={} used={}", m.cost_added, m.cost_evicted, used)));
         }
+        // every read-out surface shows the same numbers as the getters (quiescent: nothing moves)
+        for (surface, name, v) in &m.readouts {
+            let want = match name.as_str() {
+                "hit" => Some(m.hits),
+                "miss" => Some(m.misses),
+                "keys-added" => Some(m.keys_added),
+                "keys-updated" => Some(m.keys_updated),
+                "keys-evicted" => Some(m.keys_evicted),
+                "cost-added" => Some(m.cost_added),
+                "cost-evicted" => Some(m.cost_evicted),
+                "sets-dropped" => Some(m.sets_dropped),
+                "sets-rejected" => Some(m.sets_rejected),
+                "gets-dropped" => Some(m.gets_dropped),
+                "gets-kept" => Some(m.gets_kept),
+                "gets-total" => Some(m.hits + m.misses),
+                _ => None,
+            };
+            if let Some(w) = want {
+                out.probe("metrics_readout_compared", 1);
+                if *v != w {
+                    out.violations.push(viol("C17", "R-readout-disagrees", cp.seq, &format!("{} shows another value than the getter for a counter", surface), format!("{} output has {}={} but the getter returns {}", surface, name, v, w)));
+                }
+            }
+        }
         let dropped = h.ops.iter().filter(|o| matches!(o.op, Op::Insert { .. }) && o.inv_seq > since && o.ret_seq_or_max() < cp.seq && matches!(o.res, Some(Res::Bool(false)))).count() as u64
             + h.ops.iter().filter(|o| o.inv_seq > since && o.ret_seq_or_max() < cp.seq).map(|o| match (&o.op, &o.res) {
                 (Op::InsertMany { n, .. }, Some(Res::Num(ok))) => n.saturating_sub(*ok as u64),
